@@ -189,3 +189,24 @@ MANIFEST = {
     "text": "TLC checks TagIsPresented, DownOnlyToSameID, OneAcceptPerSession, NoTokenNoConn (and RemoteAddrRight) exhaustively on 3-4 carrier plans (5 by simulation) with two sessions. Seeded TLC behaviours decide carrier order, what each presents and where it is cut (before the token, inside the ClientID, frame boundary, inside a prefix, inside a body; half-open; second carrier of a live session; wrong/short token); the real server runs them and every srv.attach/in/out/accept event, each packet's KCP conversation owner, every byte read on accepted connections is judged by TLC against the specification's invariants.",
     "note": "Schedules are sampled (tlc -simulate), not exhaustive; exhaustive part is the design model (<=4 carriers, 2 ids, 1-2 segments). The 60 s retention is not waited for. KCP/smux trusted as a reliable stream keyed by the tag.",
 }
+
+
+# --- extension part built separately: the listener life cycle (spec/Listener), see notes/Listener.md -------------
+_run_core = run
+
+
+def run(chk, args):
+    import json as _json
+    only = set(args.only.split(",")) if args.only else None
+    if args.replay:
+        with open(args.replay) as fh:
+            rp = _json.load(fh)["replay"]
+        if isinstance(rp, dict) and rp.get("kind") == "listener":
+            from checks import c05_listener
+            return c05_listener.replay_part(chk, rp)
+        return _run_core(chk, args)
+    if only is None or only - {"listener"}:
+        _run_core(chk, args)
+    if only is None or "listener" in only:
+        from checks import c05_listener
+        c05_listener.run_listener_part(chk, args)
